@@ -35,6 +35,7 @@ type c02Input struct {
 	Dir   string            `json:"dir"`
 	Files []namedDoc        `json:"files"`
 	Env   map[string]string `json:"env"`
+	Reps  int               `json:"reps"` // repeat factor (inputs whose processing order depends on map iteration)
 }
 
 func c02Hash(in c02Input) string {
@@ -207,6 +208,14 @@ func C02(c *core.Ctx) {
 	// a short depends_on list inherited from a base of the same file and refined entry-wise, each entry differently
 	pool = append(pool, c02Input{Name: "extends:short-list-refined", Dir: wd, Env: map[string]string{}, Files: []namedDoc{{Name: filepath.Join(wd, "x.yaml"), InMemory: true,
 		Content: "services:\n  base: {image: i, depends_on: [db, cache, queue]}\n  web:\n    extends: {service: base}\n    depends_on:\n      db: {condition: service_healthy}\n      cache: {condition: service_completed_successfully, restart: true}\n      queue: {required: false}\n  worker:\n    extends: {service: base}\n    depends_on: {queue: {condition: service_healthy, restart: true}}\n  db: {image: i}\n  cache: {image: i}\n  queue: {image: i}\n"}}})
+	// a service that extends a base of another file and is itself extended by siblings: it is reached through the siblings or
+	// on its own, whichever the iteration order of the services gives; overlapping extra_hosts, and a base file whose
+	// services refer to each other under names the main file uses too
+	_ = os.WriteFile(filepath.Join(wd, "ext-other.yml"), []byte("services:\n  x: {image: i, extra_hosts: ['h1=1.1.1.1'], dns: [1.1.1.1]}\n  mid:\n    extends: base\n    labels: {from: mid}\n  base: {image: other-base, labels: {from: other-base}}\n"), 0o644)
+	pool = append(pool, c02Input{Name: "extends:sibling-of-file-based", Dir: wd, Env: map[string]string{}, Reps: 4, Files: []namedDoc{{Name: filepath.Join(wd, "sib.yaml"), InMemory: true,
+		Content: "services:\n  a: {extends: b}\n  c: {extends: b}\n  d: {extends: a}\n  b:\n    extends: {file: ext-other.yml, service: x}\n    extra_hosts: ['h1=1.1.1.1', 'h2=2.2.2.2', 'h3=3.3.3.3']\n    dns: [1.1.1.1, 8.8.8.8]\n"}}})
+	pool = append(pool, c02Input{Name: "extends:names-reused-in-base-file", Dir: wd, Env: map[string]string{}, Reps: 4, Files: []namedDoc{{Name: filepath.Join(wd, "reuse.yaml"), InMemory: true,
+		Content: "services:\n  web: {extends: base}\n  api: {extends: web}\n  base:\n    extends: {file: ext-other.yml, service: mid}\n    labels: {from: main-base}\n"}}})
 	// the same in three files: a list added by the second file, refined by the third
 	pool = append(pool, c02Input{Name: "merge:short-list-refined", Dir: wd, Env: map[string]string{}, Files: []namedDoc{
 		{Name: filepath.Join(wd, "r1.yaml"), InMemory: true, Content: "services:\n  web: {image: i, depends_on: [db]}\n  db: {image: i}\n  cache: {image: i}\n  queue: {image: i}\n"},
@@ -236,7 +245,7 @@ func C02(c *core.Ctx) {
 		k = 150
 	}
 	for _, in := range pool {
-		for i := 0; i < k; i++ {
+		for i := 0; i < k*max(1, in.Reps); i++ {
 			record(in, fmt.Sprintf("repeat %d", i))
 		}
 	}
